@@ -59,6 +59,7 @@ void name_task(const char* name);  // cosmetic, for wait-for graphs
 const char* task_name(int id);
 void yield(const char* why);       // pure decision point
 void sleep_ms(uint64_t ms);        // simulated sleep
+bool others_quiescent(uint64_t horizon_ns = 0); // no other task is runnable now (nor wakes by itself within the horizon)
 void settle();                     // block until no other task is runnable at the current time (quiescence)
 uint64_t now_ns();                 // monotonic simulated time
 uint64_t wall_ns();                // CLOCK_REALTIME as seen by the subject
